@@ -188,13 +188,36 @@ func (e *Env) lookupLocal(name string) (TV, bool) {
 	}
 	k := 0
 	for _, al := range e.fr.fn.Locals {
-		if al.Comment == base {
+		if al.Comment == base && al.Block() != nil && al.Referrers() != nil && len(*al.Referrers()) > 0 {
 			k++
 			if k == want {
 				et := al.Type().(*types.Pointer).Elem()
 				p, ok := e.fr.env[al].(*PtrV)
 				if !ok {
 					// declared on a path not taken: its value is unspecified
+					return TV{Var("undef_local_"+name, sortOf(et)), et}, true
+				}
+				c, has := e.cur.heap[p.Obj.id]
+				if !has {
+					return TV{Var("undef_local_"+name, sortOf(et)), et}, true
+				}
+				return TV{c, et}, true
+			}
+		}
+	}
+	// variables that escape (captured by a closure or address taken) are heap allocations, not in fn.Locals
+	k = 0
+	for _, b := range e.fr.fn.Blocks {
+		for _, in := range b.Instrs {
+			al, ok := in.(*ssa.Alloc)
+			if !ok || !al.Heap || al.Comment != base {
+				continue
+			}
+			k++
+			if k == want {
+				et := al.Type().(*types.Pointer).Elem()
+				p, ok := e.fr.env[al].(*PtrV)
+				if !ok {
 					return TV{Var("undef_local_"+name, sortOf(et)), et}, true
 				}
 				c, has := e.cur.heap[p.Obj.id]
@@ -635,6 +658,20 @@ func (e *Env) evalBinary(x *Expr) TV {
 	if a.Sort == SBytes && x.Val == "+" {
 		return TV{Cat(a, b), types.Typ[types.String]}
 	}
+	if a.Sort == SBytes && b.Sort == SBytes {
+		// lexicographic order of strings / byte strings: the same uninterpreted relation the executor uses
+		DeclareUF("bytes_lt", []*Sort{SBytes, SBytes}, SBool)
+		switch x.Val {
+		case "<":
+			return TV{App("bytes_lt", a, b), nil}
+		case ">":
+			return TV{App("bytes_lt", b, a), nil}
+		case "<=":
+			return TV{Not(App("bytes_lt", b, a)), nil}
+		case ">=":
+			return TV{Not(App("bytes_lt", a, b)), nil}
+		}
+	}
 	if a.Sort != SInt || b.Sort != SInt {
 		efail("arithmetic on %s / %s", a.Sort.Name, b.Sort.Name)
 	}
@@ -685,6 +722,19 @@ func (e *Env) evalCall(x *Expr) TV {
 		case "sameworld": // two sdk.Context values see the same store, dependency state and effect log
 			wa, wb := e.worldOf(e.eval(args[0])), e.worldOf(e.eval(args[1]))
 			return TV{And(Eq(wa.S, wb.S), Eq(wa.X, wb.X), Eq(wa.E, wb.E)), nil}
+		case "has": // map membership: has(m, k)
+			tv := e.eval(args[0])
+			k := e.term(args[1])
+			switch m := tv.V.(type) {
+			case *MapV:
+				c := e.ex.content(e.cur, m.Obj).(*Term)
+				return TV{Select(MapHas(c), k), nil}
+			case *Term:
+				if isMapSort(m.Sort) {
+					return TV{Select(MapHas(m), k), nil}
+				}
+			}
+			efail("has(): not a map")
 		case "len":
 			return TV{e.lenOf(e.eval(args[0])), nil}
 		case "min", "max":
